@@ -163,8 +163,8 @@ class Ctx:
 
     def sample_lines_stratified(self, path, n, total, key=None, cover=3):
         """Seeded sample of n lines that covers features: key(parsed line) is a set of features (default:
-        hist_features); scenarios are taken (in seeded random order) while they contain a feature or a pair of
-        features seen fewer than `cover` times so far, then the sample is filled up at random.  Rare kinds of
+        hist_features); scenarios are taken (in seeded random order) while they contain a feature (first pass) or a pair
+        of features (second pass) seen fewer than `cover` times so far, then the sample is filled up at random.  Rare kinds of
         scenario are thereby always represented."""
         if total <= n:
             return self.sample_lines_uniform(path, n, total)
@@ -178,16 +178,24 @@ class Ctx:
                     feats[i] = sorted(key(json.loads(line)))
         idx = sorted(feats)
         self.rng.shuffle(idx)
-        seen, pick = {}, []
-        for i in idx:
-            fs = feats[i]
-            units = [(a,) for a in fs] + [(a, b) for x, a in enumerate(fs) for b in fs[x + 1:]]
-            if any(seen.get(u, 0) < cover for u in units):
-                pick.append(i)
-                for u in units:
-                    seen[u] = seen.get(u, 0) + 1
+        # two passes: first every single feature `cover` times (a rare feature must not depend on where the shuffle put its
+        # few scenarios: the pairs alone fill the sample long before the end of the list), then the pairs
+        seen, pick, taken = {}, [], set()
+        for singles in (True, False):
+            for i in idx:
                 if len(pick) >= n:
                     break
+                if i in taken:
+                    continue
+                fs = feats[i]
+                units = [(a,) for a in fs] + [(a, b) for x, a in enumerate(fs) for b in fs[x + 1:]]
+                probe = [(a,) for a in fs] if singles else units
+                # an environment step in the middle of a loop over a Go map: more of them (each is a coin toss per run)
+                if any(seen.get(u, 0) < (3 * cover if len(u) == 1 and u[0].startswith("envmid:") else cover) for u in probe):
+                    pick.append(i)
+                    taken.add(i)
+                    for u in units:
+                        seen[u] = seen.get(u, 0) + 1
         chosen = set(pick)
         for i in idx:
             if len(chosen) >= n:
@@ -447,6 +455,23 @@ def hist_features(h):
             prev = h[i - 1].get("k", "") if i > 0 else ""
             nxt = h[i + 1].get("k", "") if i + 1 < len(h) else ""
             sig.add("env:%s:%s>%s" % (k, prev, nxt))
+            if i > 0 and h[i - 1].get("t") == "call" and i + 1 < len(h) and h[i + 1].get("t") == "call" \
+                    and not str(h[i + 1].get("k", "")).startswith("get"):
+                # an environment step in the middle of a reconcile: how many distinct objects that reconcile writes
+                # (what the code does then may depend on the order in which it meets them - Go map order;
+                # added after the seeded change C03-m2 was caught only with some seeds)
+                a = i
+                while a > 0 and not (h[a].get("t") == "call" and str(h[a].get("k", "")) == "get" and h[a].get("o") in ("xr", "pkg", "claim", "rev", "cm", "R")):
+                    a -= 1
+                b = i + 1
+                while b < len(h) and not (h[b].get("t") == "call" and str(h[b].get("k", "")) == "get" and h[b].get("o") in ("xr", "pkg", "claim", "rev", "cm", "R")):
+                    b += 1
+                objs = {x.get("o") for x in h[a:b] if x.get("t") == "call" and not str(x.get("k", "")).startswith(("get", "uget", "list"))
+                        and x.get("o") not in ("xr", "pkg", "claim", "rev", "cm", "R", "", None)}
+                sig.add("envmid:%s:w%d" % (k, min(len(objs), 3)))
+            if isinstance(e.get("n"), int):
+                # the model says how many items the loop the step lands in still has to visit
+                sig.add("envmid:%s:n%d" % (k, min(e["n"], 3)))
         elif t == "call":
             if k in ("get.xr", "get.pkg", "get.claim", "get.rev", "get.cm", "get.R") or \
                     (k.startswith("get") and i > 0 and h[i - 1].get("t") in ("init", "env")):
